@@ -217,6 +217,9 @@ def check_file(ctx, V, C, spec, deep=True):
         if (f['w'], f['h']) != (max(w >> m, 1), max(h >> m, 1)):
             W(ctx, 'mipdims', f'level {m} of {w}x{h} is {f["w"]}x{f["h"]}', inp); ok = False
     data = U.impl_save(V, v, spec)
+    if isinstance(data, tuple) and data[1] == 'ValueError' and spec['depth'] > 1 and spec['save_minor'] is not None and spec['save_minor'] < 2:
+        ctx.count('search:refused-depth-before-7.2')
+        return ok, None, None        # documented refusal: volumetric textures need 7.2
     if isinstance(data, tuple):
         W(ctx, 'save-raises', f'VTF.save raised {data[1]} for {spec["w"]}x{spec["h"]} {spec["fmt"]}/{spec["thumb"]} '
                     f'7.{spec["minor"]}->{spec["save_minor"]}', inp)
@@ -229,7 +232,7 @@ def check_file(ctx, V, C, spec, deep=True):
     # metadata
     want = {'minor': tminor, 'width': w, 'height': h, 'flags': spec['flags'], 'frame_count': spec['frames'],
             'first': spec['first'], 'refl': mj['refl'], 'bump': mj['bump'], 'fmt': mj['fmt'], 'low_fmt': mj['low_fmt'],
-            'depth': spec['depth'], 'mip_count': len(levels)}
+            'depth': spec['depth'] if tminor >= 2 else 1, 'mip_count': len(levels)}
     if tminor >= 3:
         want['res'] = [{'id': r['id'], 'flags': r['flags'], 'isbytes': r['isbytes'], 'ival': r['ival'], 'data': r['data']}
                        for r in spec['res'] if ((r['flags'] & 2) == 0) == r['isbytes']]
@@ -278,7 +281,7 @@ def check_file(ctx, V, C, spec, deep=True):
             continue
         if k not in orig:
             continue   # a side that did not exist in the source object (sphere map): unspecified content
-        if k not in want_keys:
+        if k not in want_keys or spec.get('ops'):
             continue
         wantpx = U.quant_img(spec['fmt'], unq(*k))
         if fr['px'] != wantpx and bad_px is None:
@@ -309,6 +312,18 @@ def check_file(ctx, V, C, spec, deep=True):
                     ok = False
         except Exception as e:  # noqa
             W(ctx, 'resave', f'saving the read-back texture raised {type(e).__name__}: {e}', inp); ok = False
+        # header_only: same metadata and frame table, frames are blank
+        hv = U.impl_view(V, data, header_only=True)
+        if 'err' in hv:
+            W(ctx, 'header-only', f'VTF.read(header_only=True) raised {hv["err"]}', inp); ok = False
+        else:
+            for kk in U.VIEW_KEYS:
+                if hv[kk] != iv[kk]:
+                    W(ctx, 'header-only', f'header_only read differs in {kk}: {hv[kk]} vs {iv[kk]}', inp); ok = False
+            if [(f['key'], f['w'], f['h']) for f in hv['frames']] != [(f['key'], f['w'], f['h']) for f in iv['frames']]:
+                W(ctx, 'header-only', 'header_only read has a different frame table', inp); ok = False
+            if any(f['px'] != [0, 0, 0, 255] * (f['w'] * f['h']) for f in hv['frames']):
+                W(ctx, 'header-only', 'header_only frames are not opaque black', inp); ok = False
         # bounds on a frame that came from a file
         try:
             r = V.VTF.read(BytesIO(data))
@@ -468,6 +483,25 @@ def correspond(ctx, drivers):
             ctx.disagree(rq, {k: (v if k != 'after' else 'changed' if v != base else 'unchanged') for k, v in gi.items()},
                          {k: (v if k != 'after' else 'changed' if v != base else 'unchanged') for k, v in want.items()},
                          'Frame.__getitem__/__setitem__')
+    # H. frame_size of every format (block formats included), I. rescale_from's size check
+    reqs, meta = [], []
+    for f in V.ImageFormats:
+        for w, h in itertools.product(list(range(0, 10)) + [15, 16, 17, 31, 32, 33, 64], repeat=2):
+            reqs.append({'op': 'fsize', 'fmt': f.ind, 'w': w, 'h': h}); meta.append({'n': f.frame_size(w, h)})
+    ctx.count('frame_size', len(reqs))
+    for w, h, lw, lh in itertools.product([1, 2, 3, 4, 8], repeat=4):
+        try:
+            V.Frame(w, h).rescale_from(V.Frame(lw, lh))
+            okr = True
+        except ValueError:
+            okr = False
+        reqs.append({'op': 'rescale_ok', 'w': w, 'h': h, 'lw': lw, 'lh': lh}); meta.append({'ok': okr})
+        ctx.count('rescale_check')
+    for rq, impl, rep in zip(reqs, meta, drv.batch(reqs)):
+        ctx.evaluations += 1
+        if rep != impl:
+            ctx.disagree(rq, impl, rep, 'frame_size' if rq['op'] == 'fsize' else 'Frame.rescale_from size check')
+    ctx.traces_vs_impl += 2
     # G. whole files
     specs = []
     n_small, n_big = ctx.budget(140, 1500), ctx.budget(4, 30)
@@ -495,7 +529,7 @@ def correspond(ctx, drivers):
         except Exception:  # noqa
             continue
         tminor = spec['minor'] if spec['save_minor'] is None else spec['save_minor']
-        reqs.append({'op': 'save', 'vtf': mj, 'minor': tminor, 'sheetver': spec['sheetver'], 'asw': spec['asw']})
+        reqs.append({'op': 'save', 'vtf': mj, 'minor': tminor, 'sheetver': spec['sheetver'], 'asw': spec['asw'], 'ops': spec.get('ops') or []})
         d2 = U.impl_save(V, v, spec)
         meta.append(('save', spec, d2))
         if not isinstance(d2, tuple):
@@ -507,7 +541,8 @@ def correspond(ctx, drivers):
         ctx.count(f'file:7.{spec["minor"]}->7.{tminor}')
         ctx.count('file:cubemap' if spec['flags'] & 0x4000 else f'file:depth{spec["depth"]}')
         ctx.count(f'file:frames{spec["frames"]}'); ctx.count(f'file:fill:{spec["fill"]}')
-        ctx.count(f'file:res{len(spec["res"])}'); ctx.count(f'file:sheet{len(spec["sheet"])}')
+        ctx.count(f'file:res{len(spec["res"])}'); ctx.count(f'file:sheet{min(len(spec["sheet"]), 4)}')
+        ctx.count(f'file:ops{len(spec.get("ops") or [])}')
     for (kind, spec, impl), rep in zip(meta, drv.batch(reqs, timeout=1500)):
         ctx.traces_vs_impl += 1
         if kind == 'save':
@@ -527,6 +562,46 @@ def correspond(ctx, drivers):
             d = U.diff_views(impl, rep)
             if d is not None:
                 ctx.disagree({'op': 'read', 'spec': spec}, d[1], d[2], 'VTF.read: ' + str(d[0]))
+
+    # J. readers on edited headers: every value of the two format fields, mipmap / frame / depth counts, flags, version
+    reqs, meta = [], []
+    bases = []
+    for spec, okf in _CACHE['files'][:60]:
+        if len(bases) >= 3 or spec.get('ops') or spec['w'] * spec['h'] > 64:
+            continue
+        try:
+            v, mj = U.build(V, spec)
+            d = U.impl_save(V, v, spec)
+        except Exception:  # noqa
+            continue
+        if not isinstance(d, tuple):
+            bases.append(d)
+    for d in bases:
+        edits = []
+        for val in list(range(-2, 41)) + [255, 2 ** 31 - 1]:
+            edits.append((52, struct.pack('<i', val))); edits.append((57, struct.pack('<i', val)))
+        for val in (0, 1, 2, 3, 9):
+            edits.append((56, bytes([val]))); edits.append((24, struct.pack('<H', val))); edits.append((63, struct.pack('<H', val)))
+        for val in (0, 0x4000, 0x4001):
+            edits.append((20, struct.pack('<I', val)))
+        for val in (0, 1, 2, 3, 4, 5, 6):
+            edits.append((8, struct.pack('<I', val)))
+        edits.append((4, struct.pack('<I', 8))); edits.append((0, b'VTX\0'))
+        for off, bs in edits:
+            e = bytearray(d); e[off:off + len(bs)] = bs
+            for cut in (None, 40, 70):
+                e2 = bytes(e if cut is None else e[:cut])
+                if cut is not None and off != 52:
+                    continue
+                iv = U.impl_view(V, e2, pixels=False); iv.pop('_obj', None)
+                reqs.append({'op': 'read', 'bytes': list(e2)}); meta.append(iv)
+                ctx.case({'op': 'crafted', 'off': off, 'bytes': list(bs), 'cut': cut}, nontrivial=True, sample_every=211)
+                ctx.count('crafted-header:' + ('err' if 'err' in iv else 'ok'))
+    for rq, iv, rep in zip(reqs, meta, drv.batch(reqs, timeout=900)):
+        ctx.traces_vs_impl += 1
+        d = U.diff_views(iv, rep)
+        if d is not None:
+            ctx.disagree({'op': 'read-crafted', 'head': rq['bytes'][:80]}, d[1], d[2], 'VTF.read (edited header): ' + str(d[0]))
 
 
 # ------------------------------------------------------------------ direct search
